@@ -352,12 +352,12 @@ pub fn run_case(env: &Env, case: &Case, oracle: &mut Oracle, mut fill: Option<Pl
                         break;
                     }
                 };
-                if out.signal.is_some() {
-                    // SIGXCPU (runaway) or a real crash of the binary: not a verdict of C14-C16
-                    result.harness_error = Some(format!("child killed by signal {:?} (argv {:?})", out.signal, inv.argv("{ROOT}")));
+                let fired = run::fired(&out.trace);
+                if out.signal.is_some() && !fired.signalled {
+                    // SIGXCPU (runaway), the watchdog, or a real crash of the binary: not a verdict of C14-C16
+                    result.harness_error = Some(format!("child killed by signal {:?} (argv {:?})", out.signal, crate::util::excerpt(inv.argv("{ROOT}").join(" ").as_bytes(), 300)));
                     break;
                 }
-                let fired = run::fired(&out.trace);
                 let pred = model::predict(&tree, &inv, &fired, oracle);
                 let after = match world::snapshot(&root) {
                     Ok(s) => s,
